@@ -33,6 +33,12 @@ tl = threading.local()
 START, STOP, ATTR = 0, 1, 2
 ATTRCODE = {'a': 100, 'b': 101, 'name': 102}
 NAMES = ['z', 'a', 'bc', 'def', 'ghij', 'klmno']
+G_SLICE = 2
+
+
+def glob_short(e):
+    """hybrid function reading a module global: its variables are re-extracted on every cache hit (func_extractors_map)"""
+    return e.name[:G_SLICE]
 
 
 # ---------------------------------------------------------------- scheduler + instrumented dict
@@ -162,10 +168,14 @@ class Env(object):
 
 
 class Shape(object):
-    def __init__(self, name, fn, params, pins, root, kind, cacheable=True, hybrid=()):
+    def __init__(self, name, fn, params, pins, root, kind, cacheable=True, hybrid=(), funcstale=False):
         self.name = name; self.fn = fn; self.params = params; self.pins = pins; self.root = root
         self.kind = kind            # result kind: 'entity' | 'str' | 'any'
         self.cacheable = cacheable; self.hybrid = hybrid
+        # queries over hybrid functions: `_get_translator` re-extracts the function's variables under a key that differs from
+        # the one used at translation time (id(func.__code__) vs id(func)), so a cached translator is never accepted:
+        # `all_func_vartypes != translator.func_vartypes` -> returns None WITHOUT touching the cache
+        self.funcstale = funcstale
 
 
 def make_shapes(env):
@@ -184,6 +194,8 @@ def make_shapes(env):
     def r_hyb(n):
         f = hyb[n]
         return select(f(e) for e in E)
+    def r_glob(G_SLICE):
+        return select(glob_short(e) for e in E)
     def f_estart(q, k): return q.filter(lambda e: e.name[k:] != '')
     def f_sstart(q, k): return q.filter(lambda s: s[k:] != '')
     def f_where(q, y): return q.where(lambda e: e.a <= y)
@@ -202,7 +214,8 @@ def make_shapes(env):
     add('r_cond', r_cond, [('n', IN), ('x', [0, 2, 4])], [('n', STOP)], True, 'entity')
     add('r_attr', r_attr, [('attr', ['a', 'b', 'name'])], [('attr', ATTR)], True, 'scalar')
     add('r_plain', r_plain, [('x', [0, 2, 4])], [], True, 'entity')
-    add('r_hyb', r_hyb, [('n', [1, 2, 3])], [('n', STOP)], True, 'str', cacheable=False, hybrid=('n',))
+    add('r_hyb', r_hyb, [('n', [1, 2, 3])], [('n', STOP)], True, 'str', cacheable=False, hybrid=('n',), funcstale=True)
+    add('r_glob', r_glob, [('G_SLICE', [G_SLICE])], [('G_SLICE', STOP)], True, 'str', hybrid=('G_SLICE',), funcstale=True)
     add('f_estart', f_estart, [('k', [0, 1, 2, 3])], [('k', START)], False, 'entity')
     add('f_sstart', f_sstart, [('k', [0, 1, 2, 3])], [('k', START)], False, 'str')
     add('f_where', f_where, [('y', [1, 3, 5])], [], False, 'entity')
@@ -391,7 +404,10 @@ class Case(object):
                     pins.append([env.pkey(cands[0]), kind])
                 old = self.pins.setdefault(tuple(key), pins)
                 if old != pins: self.problems.append('pins of key %s differ: %s vs %s' % (key, old, pins))
-                mreqs.append({'key': key, 'vars': vars_, 'base': req.get('base'), 'cacheable': sh.cacheable, 'funcStale': False})
+                root = req
+                while root.get('base') is not None: root = prog[root['base']]
+                mreqs.append({'key': key, 'vars': vars_, 'base': req.get('base'), 'cacheable': sh.cacheable,
+                              'funcStale': env.shapes[root['shape']].funcstale})
                 sp.append(env.pinned(q._translator))
             self.mprogs.append(mreqs); self.solo_pinned.append(sp)
     def pins_json(self):
@@ -459,6 +475,8 @@ def template_programs():
     P.append(('filter-pins', [[rq('r_plain', x=0), rq('f_estart', base=0, k=1), rq('f_estart', base=0, k=2)], [rq('r_plain', x=2), rq('f_estart', base=0, k=2)]]))
     P.append(('order-lambda', [[rq('r_cond', n=1, x=0), rq('f_ordl', base=0, j=1)], [rq('r_cond', n=1, x=2), rq('f_ordl', base=0, j=2)]]))
     P.append(('hybrid', [[rq('r_hyb', n=2), rq('r_stop', n=2)], [rq('r_hyb', n=3), rq('r_stop', n=3)]]))
+    P.append(('hybrid-derived', [[rq('r_hyb', n=2), rq('f_noord', base=0)], [rq('r_hyb', n=2), rq('f_sstart', base=0, k=2), rq('f_noord', base=0)]]))
+    P.append(('global-hybrid', [[rq('r_glob', G_SLICE=G_SLICE), rq('r_glob', G_SLICE=G_SLICE)], [rq('r_glob', G_SLICE=G_SLICE), rq('f_ordn', base=0)]]))
     P.append(('twice', [[rq('r_twice', n=1), rq('r_twice', n=2)], [rq('r_twice', n=2)]]))
     P.append(('none-values', [[rq('r_stop', n=None), rq('r_stop', n=0)], [rq('r_stop', n=-1), rq('r_both', m=None, n=2)]]))
     P.append(('three', [[rq('r_stop', n=1)], [rq('r_stop', n=2)], [rq('r_stop', n=3), rq('r_stop', n=1)]]))
